@@ -4,7 +4,7 @@ from __future__ import annotations
 from vlib.chdriver import all_of, assume, check, cover, fail, pick, rng
 from vlib.fixtures import CallLog, concrete, mk_host, mk_node, new_sim, quiet, snap
 
-OPS = ["tick", "shutdown", "startup", "reset", "other_request", "ping_in", "ping_out", "sw_api", "fs_scan"]
+OPS = ["tick", "shutdown", "startup", "reset", "other_request", "ping_in", "ping_out", "sw_api", "fs_scan", "svc_disable"]
 NODE_TYPES = ["computer", "server", "switch", "router", "firewall", "wireless-router"]
 STATES = ["ON", "SHUTTING_DOWN", "OFF", "BOOTING"]
 
@@ -113,6 +113,7 @@ class Ref:
 
     def __init__(self, sd, su, st="ON", cnt=0, resetting=False):
         self.sd, self.su, self.st, self.cnt, self.resetting = sd, su, st, cnt, resetting
+        self.disabled = set()  # services disabled by request: they stay DISABLED through a power cycle
 
     def _start(self):
         if self.su <= 0:
@@ -183,6 +184,19 @@ def _apply(op: str, ref: Ref, sim, a, b, a_ip, log, wired, ntype: str, t: int) -
                 with concrete():
                     fs_after = _fs_progress(a)
                 check(fs_before == fs_after, lambda: f"file-system work (scan / restore countdowns, visible health) advanced during a tick on a node that was {pre} and is {ref.st}")
+    elif op == "svc_disable":
+        # an early-installed service is disabled by request (it must stay disabled, and must not keep the services
+        # installed after it from coming back when the node returns to ON)
+        names = [x.name for x in a.services.values()]
+        target = next((n for n in ("dns-client", "ntp-client") if n in names), None) or next((n for n in names if n not in ("arp", "icmp")), None)
+        if target is not None:
+            resp = sim.apply_request(["network", "node", "node_a", "service", target, "disable"])
+            if pre_on:
+                if resp.status == "success":
+                    ref.disabled.add(target)
+                    cover("svc_disabled")
+            else:
+                check(resp.status == "failure", f"service disable on a {pre} node answered {resp.status}")
     elif op == "fs_scan":
         # start a timed folder scan (3 ticks by default) and make the file's true health differ from its visible one
         resp = sim.apply_request(["network", "node", "node_a", "file_system", "folder", "docs", "scan"])
@@ -268,9 +282,12 @@ def _apply(op: str, ref: Ref, sim, a, b, a_ip, log, wired, ntype: str, t: int) -
     if st == "ON" and not pre_on:
         cover("returned_to_on")
         for svc in a.services.values():
+            if svc.name in ref.disabled:
+                check(svc.operating_state.name == "DISABLED", f"service {svc.name}, disabled by request, is {svc.operating_state.name} after return to ON")
+                continue
             check(
                 svc.operating_state.name == "RUNNING",
-                f"service {svc.name} is {svc.operating_state.name} after return to ON",
+                lambda: f"service {svc.name} is {svc.operating_state.name} after return to ON" + (f" (services disabled by request: {sorted(ref.disabled)})" if ref.disabled else ""),
             )
         for app in a.applications.values():
             check(
@@ -355,6 +372,9 @@ HARNESSES = {
             {"fixed": {"n_ops": 2, "dmax": 2, "ntype": "router"}, "timeout": 200},
             # a timed folder scan is started first, so that file-system work is pending when the node goes down
             {"fixed": {"n_ops": 3, "dmax": 2, "ntype": "computer", "op0": 8}, "timeout": 280},
+            # an early-installed service is disabled first, then the node is power-cycled (su=0 brings it back within the job)
+            {"fixed": {"n_ops": 3, "dmax": 1, "ntype": "computer", "op0": 9}, "timeout": 280},
+            {"fixed": {"n_ops": 3, "dmax": 1, "ntype": "router", "op0": 9}, "timeout": 280},
         ],
         "thorough": [
             {"fixed": {"n_ops": 4, "dmax": 2, "ntype": nt, "op0": o0}, "timeout": 1500}
